@@ -22,7 +22,7 @@ META = dict(
         quick="lists of 2 and 3 graphs drawn from the shapes {K1, K2, 2K1, P3, K3, K2+K1} (equal shapes with independent "
               "symbolic labels, so duplicates, relabelled copies and near-misses all arise as label assignments); element "
               "in {C,N}, charge in {0,1}, order in {1,2}; pre-grouping attribute None or the node count; every list "
-              "order (solver-chosen permutation); batch sizes 1..m and one-shot; incremental lib_check",
+              "order (solver-chosen permutation); graphs on disjoint node ids and on one shared id set; representative library in arrival and in reversed order; batch sizes 1..m and one-shot; incremental lib_check",
         thorough="lists of up to 4 graphs",
     ),
     outside=["GML-string rules through the optional 'mod' backend", "lists longer than 4, graphs > 3 nodes",
@@ -50,7 +50,7 @@ def partition(classes):
     return {frozenset(s) for s in d.values()}
 
 
-def h_cluster(E, shapes, use_attr):
+def h_cluster(E, shapes, use_attr, same_ids=False):
     from synkit.Graph.Matcher.graph_cluster import GraphCluster
     from synkit.Graph.Matcher.batch_cluster import BatchCluster
 
@@ -59,7 +59,7 @@ def h_cluster(E, shapes, use_attr):
     for i, sname in enumerate(shapes):
         n, es = POOL[sname]
         g, _ = sym_mol(E, "g%d" % i, n, es, elements=("C", "N"), hcounts=(0,), charges=(0, 1), orders=(1, 2),
-                       node_ids=[10 * i + k + 1 for k in range(n)])
+                       node_ids=[(0 if same_ids else 10 * i) + k + 1 for k in range(n)])
         graphs.append(g)
     att = (lambda g: "n%d" % g.number_of_nodes()) if use_attr else (lambda g: None)
     akey = "att" if use_attr else None
@@ -91,12 +91,15 @@ def h_cluster(E, shapes, use_attr):
         E.check(pb != p0, "batched-partition-differs-from-one-shot", dict(batch_size=bs))
         tcls = [t.get("class") for t in templates]
         E.check(len(set(tcls)) != len(tcls) or len(tcls) != len(p0), "one-template-per-class", dict(batch_size=bs, templates=tcls))
-    # incremental classification in arrival order
+    # incremental classification in arrival order; the representative library may be held in any order
+    # (re-ordered / reloaded from a keyed store): before the last arrival it is reversed
     bc = BatchCluster()
     templates = []
     seen = []
-    for i in perm:
+    for pos, i in enumerate(perm):
         entry = dict(g=graphs[i], att=att(graphs[i]), idx=i)
+        if pos == m - 1 and m >= 3:
+            templates = list(reversed(templates))
         entry, templates = bc.lib_check(entry, templates, rule_key="g", attribute_key=akey)
         c = entry.get("class")
         bad = []
@@ -123,12 +126,14 @@ def shards(tier, seed):
     for a, b in itertools.combinations_with_replacement(names, 2):
         if POOL[a][0] == POOL[b][0] and len(POOL[a][1]) == len(POOL[b][1]) or (a, b) in (("K2", "E2"), ("P3", "K2K1")):
             sh.append(dict(h="cluster", params=dict(shapes=[a, b], use_attr=(a == b))))
+            if a == b:
+                sh.append(dict(h="cluster", params=dict(shapes=[a, b], use_attr=False, same_ids=True)))
     triples = [["K2", "K2", "K2"], ["E2", "E2", "E2"], ["K2", "E2", "K2"], ["P3", "P3", "P3"], ["K2K1", "K2K1", "P3"],
                ["K1", "K1", "K1"], ["P3", "K2", "P3"]]
     if tier == "thorough":
         triples += [["K3", "K3", "K3"], ["K2K1", "K2K1", "K2K1"], ["K3", "P3", "K3"]]
     for i, t in enumerate(triples):
-        sh.append(dict(h="cluster", params=dict(shapes=t, use_attr=bool(i % 2))))
+        sh.append(dict(h="cluster", params=dict(shapes=t, use_attr=bool(i % 2), same_ids=(i % 3 == 0))))
     if tier == "thorough":
         for q in (["K2"] * 4, ["E2"] * 4, ["K2", "K2", "E2", "E2"], ["P3"] * 4, ["K1"] * 4):
             sh.append(dict(h="cluster", params=dict(shapes=q, use_attr=False)))
